@@ -161,6 +161,20 @@ static void h_op(void)
     if (status == eslOK) h_out("ok fh=%u r=%lld d=%lld L=%lld", (unsigned) fh, (long long) roff, (long long) doff, (long long) L);
     else                 h_out("%s", h_status(status));
   }
+  else if (!strcmp(op, "findq")) {              /* optional result pointers omitted */
+    int64_t n; unsigned char *k; uint16_t fh; off_t roff;
+    if (!SSI || !h_arg("k")) { h_out("bad-op"); return; }
+    k = h_unhex(h_arg("k"), &n);
+    status = esl_ssi_FindName(SSI, (char *) k, &fh, &roff, NULL, NULL);
+    free(k);
+    if (status == eslOK) h_out("ok fh=%u r=%lld", (unsigned) fh, (long long) roff);
+    else                 h_out("%s", h_status(status));
+  }
+  else if (!strcmp(op, "findnumq")) {
+    if (!SSI) { h_out("bad-op"); return; }
+    status = esl_ssi_FindNumber(SSI, h_argi("i", 0), NULL, NULL, NULL, NULL, NULL);
+    h_out("%s", h_status(status));
+  }
   else if (!strcmp(op, "findnum")) {
     uint16_t fh; off_t roff, doff; int64_t L; char *pkey = NULL;
     if (!SSI) { h_out("bad-op"); return; }
